@@ -15,11 +15,14 @@
                                rewrites give the same block tree
      Blocks_front_matter_factor  with a delimiter: the prologue, then a function of the lines of the rest
      Blocks_cursor_*           the cursor primitives stay inside the line; the look-ahead byte exists
+     Blocks_removed_paragraph_retightens, Blocks_tightness_reads   list tightness (BLK-1 repaired)
+     Blocks_refdef_title_inside_consumed   reference definitions (INL-2 repaired)
    What is only stated: Blocks_total_full_statement (no panic on valid UTF-8),
    Blocks_front_matter_composition_full_statement. *)
 From Coq Require Import List NArith Arith Bool Strings.String.
 From V Require Import Base.Bytes Base.Res Model.Ast Model.Strings Model.Feed Model.FrontMatter Model.RefDef Model.Blocks
-  Spec.LineEndings Spec.Valid Spec.EscapeSpec Proofs.FeedProofs Proofs.ValidProofs Proofs.BlocksProofs Proofs.BlocksCursor.
+  Spec.LineEndings Spec.Valid Spec.EscapeSpec Proofs.FeedProofs Proofs.ValidProofs Proofs.BlocksProofs Proofs.BlocksCursor
+  Proofs.BlocksTight Proofs.RefDefTitle.
 Import ListNotations.
 Local Open Scope string_scope.
 Local Open Scope list_scope.
@@ -135,20 +138,57 @@ Theorem Blocks_atx_level_1_6 : forall rest m p level,
 Proof. exact atx_level_bounds. Qed.
 Print Assumptions Blocks_atx_level_1_6.
 
-(* ---- witnesses / non-vacuity *)
-(* finalize(List) runs before the still open reference-definition paragraph of its last item is removed:
-   the list is loose although its only item ends up with a single paragraph *)
+(* ---- list tightness and removed reference-definition paragraphs (BLK-1, repaired) *)
+(* add_child finalizes a List while the blocks below it are still open, so a paragraph of its last item that holds
+   only reference definitions is still there when the tightness is computed.  Since the repair the Paragraph arm of
+   finalize_borrowed computes the tightness of the (closed) list again after it has detached such a paragraph.
+   For EVERY state: whenever finalize removes a paragraph, the closed list two levels up is afterwards tight
+   exactly when list_is_tight (items_tight) holds of the children it has then. *)
+Theorem Blocks_removed_paragraph_retightens : forall o st id n content' m' item st',
+  get st id = Ok n -> bval n = Paragraph ->
+  resolve_refdefs (bo_fold o) (ps_refmap st) (bi_content (binf n)) = Ok (content', false, m') ->
+  finalize o st id = Ok (Some item, st') ->
+  forall lid l nl, parent_of item (ps_root st') = Some lid -> get st' lid = Ok l ->
+    bi_open (binf l) = false -> bval l = NList nl -> l_tight nl = items_tight (bkids l).
+Proof. exact finalize_removed_paragraph. Qed.
+Print Assumptions Blocks_removed_paragraph_retightens.
+
+(* what list_is_tight reads: the list is tight iff no item but the last has last_line_blank and no block of an item,
+   other than the last block of the last item, ends with a blank line *)
+Theorem Blocks_tightness_reads : forall items,
+  items_tight items = true <->
+  (forall pre it post, items = pre ++ it :: post ->
+     (bi_llb (binf it) = true -> post = []) /\
+     (forall spre s spost, bkids it = spre ++ s :: spost -> ends_with_blank_line s = true -> post = [] /\ spost = [])).
+Proof. exact items_tight_reads. Qed.
+Print Assumptions Blocks_tightness_reads.
+
+Theorem Blocks_single_block_item_tight : forall it s, bkids it = [s] -> items_tight [it] = true.
+Proof. exact items_tight_single. Qed.
+Print Assumptions Blocks_single_block_item_tight.
+
+(* the former witness of the defect: the list is now tight (its only item ends up with the single paragraph a) *)
 Definition doc_tight : bytes := Eval compute in B "- a" ++ [x0a; x0a] ++ B "  [x]: y" ++ [x0a] ++ B "# h" ++ [x0a].
 
-Theorem Blocks_tightness_order_witness :
+Theorem Blocks_tightness_witness_repaired :
   exists r nl it p h,
     parse_blocks opts_default doc_tight = Ok r /\
     to_node (br_root r) = Node Document (mkSp 1 1 4 3) [Node (NList nl) (mkSp 1 1 3 8) [Node (Item it) (mkSp 1 1 3 8) [p]]; h] /\
-    l_tight nl = false /\ nval p = Paragraph /\ nch p = [] /\
+    l_tight nl = true /\ nval p = Paragraph /\ nch p = [] /\
     br_refmap r = [(B "x", (B "y", []))].
 Proof. vm_compute. repeat eexists. Qed.
-Print Assumptions Blocks_tightness_order_witness.
+Print Assumptions Blocks_tightness_witness_repaired.
 
+(* ---- reference definitions (INL-2, repaired): a stored non-empty title lies inside the consumed bytes *)
+Theorem Blocks_refdef_title_inside_consumed : forall fold m content pos m' k u t,
+  parse_reference_inline fold m content = Ok (Some (pos, m')) ->
+  ref_lookup m k = None -> ref_lookup m' k = Some (u, t) -> t <> [] ->
+  exists p tl, Scan.scan_link_title (skipn p content) = Some tl
+               /\ clean_title (firstn tl (skipn p content)) = Ok t /\ p + tl <= pos.
+Proof. exact RefDefTitle.R.title_inside_consumed. Qed.
+Print Assumptions Blocks_refdef_title_inside_consumed.
+
+(* ---- non-vacuity *)
 Example Blocks_example :
   let x := B "> a" ++ [x0a] ++ B "b" ++ [x0a; x0a] ++ B "1. c" ++ [x0a] ++ B "```" ++ [x0a] ++ B "d" in
   exists r, parse_blocks opts_default x = Ok r /\ valid (to_node (br_root r)) = true /\
